@@ -2,8 +2,8 @@
 # tools/regress_r56.sh Cxx ... : re-trial seeded/Cxx-13..16 against the COMMITTED checks (4 in parallel); logs /tmp/trial_logs/fin_<id>.log;
 # prints "<id> exit=<rc> viol=<n> nfi=<n>"
 mkdir -p /tmp/trial_logs; cd /verif
-for p in "$@"; do for k in 13 14 15 16; do d=seeded/$p-$k; [ -f $d/patch.diff ] || continue
+for p in "$@"; do for k in ${KS:-13 14 15 16 17 18}; do d=seeded/$p-$k; [ -f $d/patch.diff ] || continue
   ( TRIAL_FROM_HEAD=1 tools/try_mutant.sh $d/patch.diff - $p > /tmp/trial_logs/fin_$p-$k.log 2>&1 ) &
   while [ $(jobs -r | wc -l) -ge 4 ]; do sleep 2; done; done; done; wait
-for p in "$@"; do for k in 13 14 15 16; do f=/tmp/trial_logs/fin_$p-$k.log; [ -f $f ] || continue
+for p in "$@"; do for k in ${KS:-13 14 15 16 17 18}; do f=/tmp/trial_logs/fin_$p-$k.log; [ -f $f ] || continue
   echo "$p-$k exit=$(grep -o 'check exit [0-9]*' $f | grep -o '[0-9]*$') viol=$(grep -c '^VIOLATION' $f) nfi=$(grep -c '^VIOLATION.*no-failing-input-found' $f)"; done; done
